@@ -21,7 +21,7 @@ RULE = ('(a) the whole option table of TCPHiddenServiceEndpoint (ephemeral not g
         'reactor whose listenTCP hands out a recording listening port: ephemeral (no auth, basic auth), filesystem (explicit and implicit '
         'directory), versions 2/3, with and without a key, with and without a requested local_port (the port actually bound is what must be forwarded to), x a failure injected at each step: configuration Deferred fails, yields a non-config, '
         'configuration bootstrap fails, local bind fails, ADD_ONION / SETCONF rejected, every descriptor upload failed, connection lost during the '
-        'wait — and no failure; for plain ephemeral services also with another service\'s descriptor events arriving while the ADD_ONION is unanswered. Observed in order: listeners bound (interface, port), the forwarding Tor is asked for, listeners closed, the '
+        'wait — and no failure; for plain ephemeral services also with another service\'s descriptor events arriving while the ADD_ONION is unanswered; the connection loss also with an unrelated command outstanding. Observed in order: listeners bound (interface, port), the forwarding Tor is asked for, listeners closed, the '
         'result (address: onion host and public port; stopListening closes the listener), whether it came before the upload was confirmed. Both '
         'tiers enumerate the product. non-trivial = a listen case; distinct = cases')
 TRUSTED = ["PARTIAL: a recording listening port stands in for sockets; the fake Tor's ADD_ONION reply / HS_DESC events; hostname files written by the "
@@ -72,6 +72,7 @@ def run_validate(c):
     hsdir = tempfile.mkdtemp(prefix='c17dir') if c['dir'] else None
     auth = {'n': None, 'b': AuthBasic(['alice']), 's': AuthStealth(['alice'])}[c['auth']]
     made = []
+    keyfiles = []
     try:
         try:
             if c['how'] == 'ctor':
@@ -93,7 +94,14 @@ def run_validate(c):
                 kw = {'controlPort': '9051'}
                 if c['dir']:
                     kw['hiddenServiceDir'] = hsdir
-                if c['key']:
+                if c['key'] and c.get('keyfile'):
+                    # the key handed over as a file
+                    kf = os.path.join(hsdir or tempfile.gettempdir(), 'c17key-%d' % os.getpid())
+                    with open(kf, 'w') as f:
+                        f.write('ED25519-V3:abcd')
+                    keyfiles.append(kf)
+                    kw['privateKeyFile'] = kf
+                elif c['key']:
                     kw['privateKey'] = 'ED25519-V3:abcd'
                 if c['single']:
                     kw['singleHop'] = 'true'
@@ -103,8 +111,14 @@ def run_validate(c):
         except ValueError as e:
             out = 'refused:' + refusal_kind(str(e))
         started = bool(reactor.tcpServers) or len(st.received) != n_cmds
+        if out.startswith('refused'):
+            # a refusal comes before anything is started: no connection towards a control port either
+            started = started or bool(reactor.tcpClients) or bool(reactor.unixClients)
         return {'result': out, 'started': started}
     finally:
+        for kf in keyfiles:
+            if os.path.exists(kf):
+                os.unlink(kf)
         for ep in made:
             d = getattr(ep, 'hidden_service_dir', None)
             if d and d != hsdir and os.path.isdir(d) and os.path.basename(d).startswith('tortmp'):
@@ -231,6 +245,10 @@ def run_listen(c):
         sid = (st.service_ids[-1] if st.service_ids else None) if c['kind'].startswith('eph') else HOST_FS[:-6]
         if sid and not result:
             if fail == 'disconnect':
+                if c.get('busy'):
+                    # the application has another command outstanding when the connection goes
+                    st.hold_prefixes.add('GETINFO')
+                    st.proto.get_info('version').addErrback(lambda f: None)
                 st.proto.connectionLost(Failure(error.ConnectionLost()))
             else:
                 dirs = ['$%040X' % i for i in (1, 2)]
@@ -345,6 +363,9 @@ def gen_cases(rng, tier):
         yield {'api': 'validate', 'how': 'tor', 'ephemeral': None, 'dir': d, 'auth': a, 'stealth_arg': False, 'key': k, 'single': h}
     for d, k, h in itertools.product([False, True], [False, True], [False, True]):
         yield {'api': 'validate', 'how': 'string', 'ephemeral': None, 'dir': d, 'auth': 'n', 'stealth_arg': False, 'key': k, 'single': h}
+        if k:
+            yield {'api': 'validate', 'how': 'string', 'ephemeral': None, 'dir': d, 'auth': 'n', 'stealth_arg': False, 'key': k, 'single': h,
+                   'keyfile': True}
     for kind, version, key, fail, (public, local_port) in itertools.product(
             ['eph', 'eph-basic', 'fs-explicit', 'fs-implicit'], [2, 3, None], [False, True],
             ['none', 'config', 'notConfig', 'bootstrap', 'bind', 'command', 'uploads', 'disconnect'], [(80, None), (443, None), (80, 4321)]):
@@ -355,6 +376,8 @@ def gen_cases(rng, tier):
         if kind == 'eph-basic' and fail in ('none', 'uploads', 'disconnect'):
             continue        # its descriptor wait needs a real RSA key from Tor to recognise the service (not provided by the fake Tor)
         yield {'api': 'listen', 'kind': kind, 'version': version, 'key': key, 'fail': fail, 'public': public, 'local_port': local_port}
+        if fail == 'disconnect' and local_port is None:
+            yield {'api': 'listen', 'kind': kind, 'version': version, 'key': key, 'fail': fail, 'public': public, 'local_port': local_port, 'busy': True}
         if kind == 'eph' and fail in ('none', 'uploads') and local_port is None:
             yield {'api': 'listen', 'kind': kind, 'version': version, 'key': key, 'fail': fail, 'public': public, 'local_port': local_port,
                    'foreign_first': True}
